@@ -210,6 +210,28 @@ Definition dbnames_from (fs : list (list string * string)) (acc : list (string *
   fold_left (fun a f => insert_field a (snd f) (fst f)) fs acc.
 Definition dbnames (tree : list fnode) : list (string * list string) := dbnames_from (fields_of tree) [].
 
+(* FieldsByDBName[col] of the parsed schema *)
+Fixpoint col_lookup (acc : list (string * list string)) (col : string) : option (list string) :=
+  match acc with
+  | [] => None
+  | (c, p) :: r => if String.eqb c col then Some p else col_lookup r col
+  end.
+
+(* Which field OWNS a column that several fields map to, as the property reads a model type
+   ("nonexistence or shortest path or first appear prioritized"; for fields of the model itself and
+   of anonymously embedded structs this is Go's own rule for a promoted field): the field of minimal
+   depth, the first declared among equals.  Written as a right fold over the declaration order, not
+   as the parser's left fold with replacement ([insert_field]). *)
+Fixpoint owner_of (fs : list (list string * string)) (col : string) : option (list string) :=
+  match fs with
+  | [] => None
+  | (p, c) :: r =>
+      match owner_of r col with
+      | None => if String.eqb c col then Some p else None
+      | Some q => if String.eqb c col && Nat.leb (length p) (length q) then Some p else Some q
+      end
+  end.
+
 (* ------------------------------------------------------------------ *)
 (* columns of a parsed schema, in DBNames order *)
 Record fdesc := mk_fd {
